@@ -301,6 +301,12 @@ func (w *c19World) judge(j *c19Judged) {
 				rec.Count("clause.error_isolation.following_scripts_judged", 1)
 				if !started {
 					add("following-script-not-run kind="+kind+" mode="+mode, "script %s did not run after %s failed (%v)\n%s", nx.Name, s.Name, run.Results, describe())
+				} else if !nx.MustFail && !run.has(nx.Name+" @done") && si+1 < len(run.Results) {
+					// it started but did not finish: held up by something the failed script left behind
+					// (a wait that ends in the script's timeout), as opposed to an error of its own bindings
+					if e := run.Results[si+1].Err; strings.Contains(e, "throttle") || strings.Contains(e, "deadline") || strings.Contains(e, "timeout") {
+						add("following-script-held-up kind="+kind+" mode="+mode, "script %s started after %s failed but did not finish: %s\n%s", nx.Name, s.Name, e, describe())
+					}
 				}
 			}
 		}
@@ -365,7 +371,7 @@ func c19Enumerate(thorough bool) ([]c19Case, map[string]any) {
 			if rk.Timeout && (w != c19WAfter || n != 1) {
 				continue
 			}
-			if n == 1 || k == 0 || (thorough && n == 2 && k == 3) {
+			if n == 1 || k == 0 || (thorough && n == 2 && k == 3) || (w == c19WAfter && n == 2 && k >= 6) {
 				l = append(l, k)
 			}
 		}
